@@ -5,10 +5,16 @@ S == INSTANCE Select WITH ListedNames <- {}, OtherNames <- {}, ListedSources <- 
                           tok <- "", entry <- "", kind <- "name", accepted <- FALSE
 VARIABLES l, nrej
 ProfileReasons(e) == IF e.missing = <<>> THEN {} ELSE {"profile-names-unknown-lint"}
+\* selecting by a profile: the profile is retrievable and listed; its names are selector tokens like any other
+ProfileUseReasons(e) ==
+   (IF e.retrievable THEN {} ELSE {"registered-profile-not-retrievable"}) \cup
+   (IF e.allListed /\ ~e.accepted THEN {"listed-but-rejected"} ELSE {}) \cup
+   (IF ~e.allListed /\ e.accepted THEN {"unknown-but-accepted"} ELSE {}) \cup
+   (IF e.allListed /\ e.accepted /\ ~e.faithful THEN {"accepted-as-something-else"} ELSE {})
 TraceInit == l = 1 /\ nrej = 0
 Step == /\ l <= Len(Trace)
         /\ LET e == Trace[l]
-               r == IF e.ev = "Sel" THEN S!SelReasons(e) ELSE IF e.ev = "Profile" THEN ProfileReasons(e) ELSE {} IN
+               r == IF e.ev = "Sel" THEN S!SelReasons(e) ELSE IF e.ev = "Profile" THEN ProfileReasons(e) ELSE IF e.ev = "ProfileUse" THEN ProfileUseReasons(e) ELSE {} IN
              IF r = {} THEN nrej' = nrej ELSE PrintT(<<"REJECT", l, r>>) /\ nrej' = nrej + 1
         /\ l' = l + 1
 Done == l = Len(Trace) + 1 /\ PrintT(<<"DONE", Len(Trace), nrej>>) /\ l' = l + 1 /\ UNCHANGED nrej
